@@ -222,8 +222,122 @@ pub fn run(prop: &str, tier: &str, seed: u64, outfile: &str) {
         }
     }
     gen_structured(&mut out, &mut rng, thorough, prop);
+    if matches!(prop, "C01" | "C02" | "C04" | "C05" | "C06" | "C07" | "C09" | "C10" | "C15") {
+        gen_ladders(&mut out, &mut rng, thorough, prop);
+    }
     let n = out.finish(outfile);
     println!("cases={}", n);
+}
+
+// ---------------------------------------------------------------------------------------------
+// HISTORIES on one builder (`common::build_history`): `buildhh <hex> <final e m v k> <steps e.m.v.k;…> => <outcome>` is judged
+// exactly like `build <hex> <e m v k>` (the outcome depends on the final options only); `classifyh <hex> <steps> <final>`
+// like `classify <hex>`.
+pub fn buildhh_line(input: &[u8], steps: &[Opts], o: Opts) -> String {
+    let toks: Vec<String> = steps.iter().map(crate::common::opts_tok).collect();
+    let r = crate::common::build_history(input, steps, o);
+    format!("buildhh {} {} {} {} {} {} => {}", hex(input), opt(o.ecl), opt(o.mode), opt(o.version), opt(o.mask), toks.join(";"), outcome_full(&r))
+}
+pub fn classifyh_line(input: &[u8], steps: &[Opts], o: Opts) -> String {
+    let toks: Vec<String> = steps.iter().map(crate::common::opts_tok).collect();
+    let r = crate::common::build_history(input, steps, o);
+    let m = match &r {
+        Outcome::Ok(q) => opt(q.mode.map(mode_ix)),
+        Outcome::ErrEncodedData => "errE".to_string(),
+        Outcome::ErrSpecifiedVersion => "errS".to_string(),
+        Outcome::Trap(_) => "trap".to_string(),
+    };
+    format!("classifyh {} {} {} => {}", hex(input), toks.join(";"), crate::common::opts_tok(&o), m)
+}
+/// ladders: (a) the version raised step by step until the payload fits, (b) a pinned version with the level lowered from H
+/// until it fits, (c) byte mode tried first, then a level the bytes do not fit, then the narrower mode that does.
+/// Payloads: random content, and long digit / alphanumeric prefixes with ONE character of a wider class near the end.
+fn gen_ladders(out: &mut Out, rng: &mut Rng, thorough: bool, prop: &str) {
+    let caps = caps();
+    let n = if thorough { 400 } else { 60 };
+    for k in 0..n {
+        let vt = rng.below(if thorough { 20 } else { 9 });
+        let e0 = rng.below(4);
+        let inp: Vec<u8> = match k % 3 {
+            0 => {
+                let md = rng.below(3);
+                let len = rng.range(caps[md][e0][vt] / 2, caps[md][e0][vt].max(caps[md][e0][vt] / 2 + 1));
+                content(rng, md, len)
+            }
+            1 => {
+                // digits, then a few characters of the alphanumeric class at the very end
+                let lo = caps[1][e0][vt] * 2 / 3;
+                let len = rng.range(lo, caps[1][e0][vt].saturating_sub(8).max(lo + 1));
+                let mut v = content(rng, 0, len);
+                v.extend_from_slice(*rng.pick(&[&b"-REV:A"[..], b"A", b" 7", b"/1"]));
+                v
+            }
+            _ => {
+                let lo = caps[2][e0][vt] * 2 / 3;
+                let len = rng.range(lo, caps[2][e0][vt].saturating_sub(4).max(lo + 1));
+                let mut v = content(rng, 1, len);
+                v.extend_from_slice(*rng.pick(&[&b"x"[..], b"!", b"\n", b"a.b"]));
+                v
+            }
+        };
+        let level = if rng.chance(1, 3) { None } else { Some(e0) };
+        let auto = build(&inp, Opts { ecl: level, mode: None, version: None, mask: None });
+        let vf = match &auto {
+            Outcome::Ok(q) => q.version.map(|v| v as usize).unwrap_or(0),
+            _ => continue,
+        };
+        let mask = if rng.chance(1, 4) { Some(rng.below(8)) } else { None };
+        match k % 4 {
+            0 | 1 => {
+                // (a) version ladder vf-3 .. vf (sometimes one beyond)
+                let start = vf.saturating_sub(1 + rng.below(3));
+                let steps: Vec<Opts> = (start..vf).map(|v| Opts { ecl: level, mode: None, version: Some(v), mask }).collect();
+                let fin = Opts { ecl: level, mode: None, version: Some((vf + rng.below(2)).min(39)), mask };
+                if prop == "C09" {
+                    out.job(move || classifyh_line(&inp, &steps, fin));
+                } else {
+                    out.job(move || buildhh_line(&inp, &steps, fin));
+                }
+            }
+            2 => {
+                // (b) level ladder on a pinned version: the version that fits at L
+                let vl = match build(&inp, Opts { ecl: Some(0), mode: None, version: None, mask: None }) {
+                    Outcome::Ok(q) => q.version.map(|v| v as usize).unwrap_or(0),
+                    _ => continue,
+                };
+                let mut steps = Vec::new();
+                let mut fin = Opts { ecl: Some(0), mode: None, version: Some(vl), mask };
+                for e in [3usize, 2, 1, 0] {
+                    let o = Opts { ecl: Some(e), mode: None, version: Some(vl), mask };
+                    if matches!(build(&inp, o), Outcome::Ok(_)) {
+                        fin = o;
+                        break;
+                    }
+                    steps.push(o);
+                }
+                if prop == "C09" {
+                    out.job(move || classifyh_line(&inp, &steps, fin));
+                } else {
+                    out.job(move || buildhh_line(&inp, &steps, fin));
+                }
+            }
+            _ => {
+                // (c) digits: byte mode at L, then H (too small for bytes), then numeric at H
+                let v = rng.below(if thorough { 12 } else { 6 });
+                let len = caps[0][3][v].min(caps[2][0][v]);
+                if len <= caps[2][3][v] || prop == "C09" {
+                    continue;
+                }
+                let digits = content(rng, 0, len);
+                let steps = vec![
+                    Opts { ecl: Some(0), mode: Some(2), version: Some(v), mask },
+                    Opts { ecl: Some(3), mode: Some(2), version: Some(v), mask },
+                ];
+                let fin = Opts { ecl: Some(3), mode: Some(0), version: Some(v), mask };
+                out.job(move || buildhh_line(&digits, &steps, fin));
+            }
+        }
+    }
 }
 
 // ---------------------------------------------------------------------------------------------
@@ -916,10 +1030,11 @@ fn gen_c10(out: &mut Out, rng: &mut Rng, thorough: bool) {
             &[7089, 7090, 12000, 16384, 21100, 25000, 31329, 31330, 65536, 100000]
         };
         for &len in lens {
-            for (i, run) in [b'7', b'A', b'a', 0u8].into_iter().enumerate() {
+            for (i, run) in [&b"7"[..], b"A", b"a", b"\0", b"7A", b"1 ", b"4F", b"12:A", b"9a"].into_iter().enumerate() {
                 let tail = match (len + i) % 3 { 0 => None, 1 => Some(b'x'), _ => Some(b'Z') };
                 let ecl = if (len + i) % 2 == 0 { None } else { Some(0) };
-                out.job(move || buildbig_line(run, len, tail, ecl));
+                let count = len / run.len();
+                out.job(move || buildbig_line(run, count, tail, ecl));
             }
         }
     }
@@ -938,13 +1053,14 @@ fn gen_c10(out: &mut Out, rng: &mut Rng, thorough: bool) {
     }
 }
 
-/// `buildbig <run byte hex> <len> <tail byte hex|-> <ecl|-> => <outcome>`: a build of `len` copies of one byte (plus an
+/// `buildbig <unit hex> <count> <tail byte hex|-> <ecl|-> => <outcome>`: a build of `count` copies of a unit of 1..4 bytes — one
+/// character, or an alternation such as `7A`, `1 ` (numbers separated by blanks), an upper-case hex dump — (plus an
 /// optional different last byte) with everything else automatic, made in a CHILD process on a thread with Rust's default
 /// 2 MiB stack — so that a process abort (stack exhaustion in a recursive scan, an allocation failure) or a hang is
 /// observed as an outcome instead of killing the harness. Inputs far beyond the version-40 capacity must still come back
 /// as the data-too-big error.
-pub fn buildbig_line(run: u8, len: usize, tail: Option<u8>, ecl: Option<usize>) -> String {
-    let head = format!("buildbig {:02x} {} {} {} => ", run, len, tail.map_or("-".to_string(), |t| format!("{:02x}", t)), opt(ecl));
+pub fn buildbig_line(run: &[u8], len: usize, tail: Option<u8>, ecl: Option<usize>) -> String {
+    let head = format!("buildbig {} {} {} {} => ", hex(run), len, tail.map_or("-".to_string(), |t| format!("{:02x}", t)), opt(ecl));
     let exe = std::env::current_exe().unwrap();
     let mine = buildbig_with(&exe, &head, run, len, tail, ecl);
     // the same build in the UNOPTIMISED binary (`harness/target-o0`, what a plain `cargo build` produces): its result
@@ -960,9 +1076,9 @@ pub fn buildbig_line(run: u8, len: usize, tail: Option<u8>, ecl: Option<usize>) 
     }
     mine
 }
-fn buildbig_with(exe: &std::path::Path, head: &str, run: u8, len: usize, tail: Option<u8>, ecl: Option<usize>) -> String {
+fn buildbig_with(exe: &std::path::Path, head: &str, run: &[u8], len: usize, tail: Option<u8>, ecl: Option<usize>) -> String {
     let child = std::process::Command::new(exe)
-        .args(["build-child", &format!("{:02x}", run), &len.to_string(), &tail.map_or("-".to_string(), |t| format!("{:02x}", t)), &opt(ecl)])
+        .args(["build-child", &hex(run), &len.to_string(), &tail.map_or("-".to_string(), |t| format!("{:02x}", t)), &opt(ecl)])
         .stdout(std::process::Stdio::piped())
         .stderr(std::process::Stdio::null())
         .spawn();
@@ -996,9 +1112,9 @@ fn buildbig_with(exe: &std::path::Path, head: &str, run: u8, len: usize, tail: O
         None => format!("{}trap no-result-within-60s", head),
     }
 }
-pub fn build_child(run: u8, len: usize, tail: Option<u8>, ecl: Option<usize>) {
+pub fn build_child(run: Vec<u8>, len: usize, tail: Option<u8>, ecl: Option<usize>) {
     let t = std::thread::spawn(move || {
-        let mut inp = vec![run; len];
+        let mut inp: Vec<u8> = run.iter().cycle().take(run.len() * len).copied().collect();
         if let Some(t) = tail {
             inp.push(t);
         }
@@ -1613,8 +1729,42 @@ pub fn small_symbol(rng: &mut Rng, caps: &[Vec<Vec<usize>>], v: usize) -> (Vec<u
     (content(rng, md, len), Opts { ecl: Some(e), mode: Some(md), version: Some(v), mask: Some(rng.below(8)) })
 }
 
+/// `svgcmd <hex> e m v k <margin> => ok <n> <matrix> <svg hex>`: ONE layer drawn by a CUSTOM command (`Shape::Command`), which
+/// writes what it was called with — column, row and the module byte (value | type << 1) — into its sub-path. The document
+/// must hold one such sub-path per dark module, in row-major order, at (column + margin, row + margin), and the byte must be
+/// the symbol's own module (so that region-aware styling sees the real map).
+pub fn svgcmd_line(input: &[u8], o: Opts, margin: usize) -> String {
+    fn echo(y: usize, x: usize, cell: fast_qr::Module) -> String {
+        format!("M{},{}h{}v1", x, y, cell.0)
+    }
+    let r = build(input, o);
+    let head = format!("svgcmd {} {} {} {} {} {} => ", hex(input), opt(o.ecl), opt(o.mode), opt(o.version), opt(o.mask), margin);
+    match &r {
+        Outcome::Ok(q) => {
+            let q2 = (**q).clone();
+            match std::panic::catch_unwind(move || {
+                use fast_qr::convert::Builder;
+                let mut b = fast_qr::convert::svg::SvgBuilder::default();
+                b.margin(margin);
+                b.shape(fast_qr::convert::Shape::Command(echo));
+                b.to_str(&q2)
+            }) {
+                Ok(s) => format!("{}ok {} {} {}", head, q.size, matrix_hex(q), hex(s.as_bytes())),
+                Err(e) => format!("{}trap {}", head, panic_msg(e)),
+            }
+        }
+        _ => format!("{}nobuild {}", head, outcome_short(&r)),
+    }
+}
+
 fn gen_c12(out: &mut Out, rng: &mut Rng, thorough: bool) {
     let caps = caps();
+    for k in 0..(if thorough { 120 } else { 12 }) {
+        let v = if k % 4 == 0 { rng.below(40) } else { rng.below(8) };
+        let (inp, o) = small_symbol(rng, &caps, v);
+        let margin = rng.below(9);
+        out.job(move || svgcmd_line(&inp, o, margin));
+    }
     let n_cases = if thorough { 6000 } else { 400 };
     for k in 0..n_cases {
         let v = if k % 10 == 0 { rng.below(40) } else { rng.below(8) };
